@@ -421,7 +421,7 @@ func genValue(r *rng, t reflect.Type, o genOpts) string {
 				cs = append(cs, reflect.TypeOf([]byte{}))
 			}
 			if o.tagged && o.cbor {
-				cs = append(cs, reflect.TypeOf(Inner{}), reflect.TypeOf(TrNum(0)), reflect.TypeOf(TrBytes{}), reflect.TypeOf(TrSq{}))
+				cs = append(cs, reflect.TypeOf(Inner{}), reflect.TypeOf(TrNum(0)), reflect.TypeOf(TrBytes{}), reflect.TypeOf(TrSq{}), reflect.TypeOf(TrOpt{}))
 			}
 		}
 		ct := cs[r.intn(len(cs))]
